@@ -336,6 +336,80 @@ def _at(v: Any, path: str) -> Any:
         return "<absent>"
 
 
+
+# ---------------------------------------------------------------------------
+# input mutated after validation (shared with C10)
+# ---------------------------------------------------------------------------
+JSONRPC_UNIFIED = "chuk_mcp.protocol.messages.json_rpc_message:JSONRPCMessage"
+
+
+def inputmut_cases(tier: str, mcases: List[Dict[str, Any]]) -> List[Dict[str, Any]]:
+    """The wire objects whose containers are edited after validation: every generated model object without the
+    unknown-member family (plus its object-valued members at the top level), and JSON-RPC envelopes through parse_message."""
+    out = [c for c in mcases if not c["label"].startswith("unknown:") or "=object-with-null@<top>" in c["label"]]
+    env = [c for c in envelope_cases(tier) if c["label"].startswith(("request:id#0/", "request:id#9/", "result:id#0/", "result:id#9/",
+                                                                      "error:id#0/", "notification:"))]
+    return out + [dict(c, part="inputmut-envelopes") for c in env]
+
+
+def libedit_cases() -> List[Dict[str, Any]]:
+    from .. import modelops
+
+    return [{"op": "libedit", "scenario": si, "params": pi} for si in range(len(modelops.LIBEDIT_SCENARIOS))
+            for pi in range(len(modelops.LIBEDIT_PARAMS))]
+
+
+def position_kind_of(case: Dict[str, Any], path_list: List[Any]) -> str:
+    q = JSONRPC_UNIFIED if case["target"] == "parse_message" else case["target"]
+    try:
+        return wiregen.position_kind(wiregen.resolve(q), case["wire"], tuple(path_list))
+    except Exception:  # noqa: BLE001
+        return "free"
+
+
+def start_inputmut(handler: str, cases: List[Dict[str, Any]]):
+    """run_inputmut in a background thread (its worker processes overlap with the main part); -> join() giving the result."""
+    import threading
+
+    box: Dict[str, Any] = {}
+
+    def bg():
+        try:
+            box["im"] = run_inputmut(handler, cases)
+        except BaseException as e:  # noqa: BLE001
+            box["err"] = e
+
+    th = threading.Thread(target=bg)
+    th.start()
+
+    def join():
+        th.join()
+        if "err" in box:
+            raise core.HarnessError(f"input-mutation part failed: {box['err']}")
+        return box["im"]
+
+    return join
+
+
+def run_inputmut(handler: str, cases: List[Dict[str, Any]]) -> Dict[str, Any]:
+    """Puts the input-mutation and library-edit cases to fresh pools of both backends; returns wire cases, answers, audits."""
+    from .. import orderdep as _od
+
+    wc = [{"op": "inputmut", "target": c["target"], "wire": enc(c["wire"])} for c in cases]
+    lc = libedit_cases()
+    n_each = max(1, workers.per_config_workers(len(CONFIGS)) // 2)
+
+    def go(cfg):
+        with workers.Pool(cfg, handler, n_each) as pool:
+            a = pool.map(wc)
+            b = pool.map(lc, batch=2)
+        return a, b, workers.audit(cfg, handler, wc + lc, a + b, 13, cap=5000)
+
+    got = _od.per_config(CONFIGS, go)
+    return {"wire": wc, "lib": lc, "answers": {n: got[n][0] for n in got}, "lib_answers": {n: got[n][1] for n in got},
+            "audits": {n: got[n][2] for n in got}}
+
+
 # ---------------------------------------------------------------------------
 def wire_case(c: Dict[str, Any]) -> Dict[str, Any]:
     return {"op": "validate", "target": c["target"], "wire": enc(c["wire"])}
@@ -374,6 +448,8 @@ def run(tier: str, only=None) -> core.Result:
             res.harness_errors.append(f"documented-invariant class {q} was not discovered")
 
     wcases = [wire_case(c) for c in cases]
+    im_cases = inputmut_cases(tier, mcases) if (not only or "models" in only) else []
+    im_join = start_inputmut(HANDLER, im_cases) if im_cases else None
     pools = start_pools(workers.per_config_workers(len(CONFIGS)))
     try:
         hello = {n: p.hello for n, p in pools.items()}
@@ -516,6 +592,76 @@ def run(tier: str, only=None) -> core.Result:
                               {"target": c["target"], "part": "pair-order", "label": c["label"], "wire": enc(c["wire"]),
                                "history": [{"target": h["target"], "wire": enc(h["wire"])} for h in by_class[qa]]})
 
+    # input mutated after validation: what an already-built object dumps to must react to later edits of the wire object
+    # it was built from in the same way under both backends (relational; C10 judges the declared containers absolutely)
+    im_info: Dict[str, Any] = {"cases": 0, "positions_edited": 0, "edits": 0, "changes_both_backends_agree": 0,
+                               "library_edit_scenarios": 0, "disagreements": 0}
+    im_audit = {"reasked": 0, "mismatches": 0}
+    if not only or "models" in only:
+        from .. import modelops as _mo
+
+        im = im_join()
+        im_info["cases"] = len(im_cases)
+        for n_, a_ in im["audits"].items():
+            im_audit["reasked"] += a_["reasked"]
+            im_audit["mismatches"] += a_["mismatches"]
+            if a_["mismatches"]:
+                res.harness_errors.append(f"nondeterministic input-mutation answer of the {n_} worker (case #{a_['first_mismatch_index']})")
+        for i, c in enumerate(im_cases):
+            ap, af = im["answers"]["pydantic"][i], im["answers"]["fallback"][i]
+            for a_ in (ap, af):
+                if "harness_exc" in a_:
+                    res.harness_errors.append(f"worker exception (input mutation) on {c['target']} {c['label']}: {a_['harness_exc'][-300:]}")
+            if not (ap.get("ok") and af.get("ok")) or "harness_exc" in ap or "harness_exc" in af:
+                continue
+            im_info["positions_edited"] += ap.get("positions", 0)
+            im_info["edits"] += ap.get("edits", 0)
+            model = "parse_message" if c["target"] == "parse_message" else wiregen.short(c["target"])
+            if c["target"] != "parse_message" and wiregen.is_config_class(wiregen.resolve(c["target"])):
+                continue
+            cp = {(ch["position"], ch["via"]): ch for ch in ap["changed"]}
+            cf = {(ch["position"], ch["via"]): ch for ch in af["changed"]}
+            im_info["changes_both_backends_agree"] += len(set(cp) & set(cf))
+            reported = set()
+            for side, only_here in (("fallback", set(cf) - set(cp)), ("pydantic", set(cp) - set(cf))):
+                for key_ in sorted(only_here):
+                    ch = (cf if side == "fallback" else cp)[key_]
+                    if (side, ch["position"]) in reported:
+                        continue
+                    reported.add((side, ch["position"]))
+                    im_info["disagreements"] += 1
+                    store({"class": "input-mutated-after-validation", "backend": side, "model": model, "position": ch["position"]},
+                          f"{model} <- {json.dumps(c['wire'], ensure_ascii=True)[:240]}: under {side} only, editing the wire object in "
+                          f"place at '{ch['position']}' ({ch['mutation']}) AFTER the object was built changes what that object dumps "
+                          f"to ({ch['via']} differs at '{ch['path']}')",
+                          {"target": c["target"], "part": "inputmut", "label": c["label"], "wire": enc(c["wire"])})
+            sp, sf = ap.get("sibling_changed"), af.get("sibling_changed")
+            if bool(sp) != bool(sf):
+                side = "fallback" if sf else "pydantic"
+                ch = sf or sp
+                im_info["disagreements"] += 1
+                store({"class": "sibling-object-changed", "backend": side, "model": model,
+                       "position": ch["path"].replace(".vf-own-edit", "")},
+                      f"{model} <- {json.dumps(c['wire'], ensure_ascii=True)[:240]}: two objects built from one wire object; editing "
+                      f"the first one's own members changes the dump of the second at '{ch['path']}' under {side} only",
+                      {"target": c["target"], "part": "inputmut", "label": c["label"], "wire": enc(c["wire"])})
+        for i, lc in enumerate(im["lib"]):
+            ap, af = im["lib_answers"]["pydantic"][i], im["lib_answers"]["fallback"][i]
+            im_info["library_edit_scenarios"] += 1
+            name = f"{_mo.LIBEDIT_SCENARIOS[lc['scenario']]} on params {json.dumps(_mo.LIBEDIT_PARAMS[lc['params']])}"
+            for a_ in (ap, af):
+                if "harness_exc" in a_ or "exc" in a_:
+                    res.harness_errors.append(f"library-edit scenario {name} failed: {str(a_)[:300]}")
+            if workers.line(ap) != workers.line(af) and "changed" in ap and "changed" in af:
+                side = "fallback" if af["changed"] and not ap["changed"] else "pydantic" if ap["changed"] and not af["changed"] else "both-differently"
+                ch = af["changed"] or ap["changed"]
+                im_info["disagreements"] += 1
+                store({"class": "input-mutated-after-validation", "backend": side, "model": "library:" + _mo.LIBEDIT_SCENARIOS[lc["scenario"]],
+                       "position": ch["path"]},
+                      f"{name}: a request object built earlier from the same params dict dumps differently afterwards under {side} "
+                      f"(at '{ch['path']}'); Pydantic: {ap['changed']}, fallback: {af['changed']}",
+                      {"part": "libedit", "scenario": lc["scenario"], "params": lc["params"], "target": "library", "wire": enc(None)})
+
     # determinism audit in fresh workers; a mismatch is explained before it is reported
     audit_total = audit_bad = audit_order = 0
     for cfg in CONFIGS:
@@ -553,10 +699,11 @@ def run(tier: str, only=None) -> core.Result:
     cov["violation_signatures"] = dict(sorted(sig_count.items()))
     cov["unjudged_config_class_disagreements"] = {k: {"cases": n, "example": unjudged_examples[k]}
                                                   for k, n in sorted(unjudged.items())}
-    cov["audit_reasked"] = audit_total
+    cov["audit_reasked"] = audit_total + im_audit["reasked"]
     cov["audit_mismatches"] = 0 if audit_order else audit_bad
     cov["audit_mismatches_explained_as_order_dependence"] = audit_bad if audit_order else 0
     cov["same_name_pair_order"] = pair_info
+    cov["input_mutated_after_validation"] = im_info
     cov["list_nested_alias_coverage"] = nested_alias
     cov["configurations"] = {n: {k: v for k, v in h.items() if k != "classes"} for n, h in hello.items()}
     cov["samples"] = [{"part": c["part"], "target": c["target"], "label": c["label"], "wire": c["wire"]}
@@ -577,6 +724,7 @@ def run(tier: str, only=None) -> core.Result:
         "members declared as a Literal constant (jsonrpc, type, method, role) are always present in generated objects: the schemas require them although the classes give them defaults",
         "two numbers are the same JSON value when numerically equal (1 and 1.0); members named id are compared with their JSON type",
         "transport parameter classes (chuk_mcp.transports.*: local configuration, never on the wire; their validators are pydantic decorators) are driven and compared, but their disagreements are listed under unjudged_config_class_disagreements instead of being reported",
+        "input mutated after validation: the wire object is edited in place at every dict/list position down to depth 2 (replace a scalar, delete a key/item, add a key/append, clear); both backends share the caller's objects inside free-form values (Any, the values of Dict[str, Any], unknown members), so C09 only demands that the built object reacts the same way under both",
         "agreement of attribute values that do not show in the class of a nested object or in the dump is not judged",
         "depth of nested models " + ("3" if tier == "thorough" else "2") + "; 'seeded large objects' of the quantifier are replaced by the covering arrays",
     ]
@@ -595,6 +743,15 @@ def replay_case(args: Dict[str, Any]) -> Dict[str, Any]:
 
     logging.disable(logging.CRITICAL)
     wiregen.discover()
+    if args.get("part") in ("inputmut", "libedit"):
+        x = {"op": "libedit", "scenario": args["scenario"], "params": args["params"]} if args["part"] == "libedit" else \
+            {"op": "inputmut", "target": args["target"], "wire": args["wire"]}
+        ans = {cfg["name"]: workers.fresh_sequence(cfg, HANDLER, [x])[0] for cfg in CONFIGS}
+        same = workers.line({k: v for k, v in ans["pydantic"].items() if k in ("changed", "sibling_changed")}) == \
+            workers.line({k: v for k, v in ans["fallback"].items() if k in ("changed", "sibling_changed")})
+        return {"part": args["part"], "target": args.get("target"), "answers": ans,
+                "violations": [] if same else [{"sig": {"class": "input-mutated-after-validation"},
+                                                "msg": "the two backends react differently to edits of the input made after validation"}]}
     c = {"target": args["target"], "part": args.get("part"), "label": args.get("label"), "wire": dec(args["wire"])}
     hist = [{"op": "validate", "target": h["target"], "wire": h["wire"]} for h in args.get("history", [])]
     ans, alone = {}, {}
